@@ -52,6 +52,7 @@ ALLOWED = {
     ("dask_array/core/_conversion.py::from_array", "uuid"): "documented API: from_array(name=False) asks for a unique name; a user-supplied name carries a uuid1 token so two exact-name nodes never share a token",
     ("dask_array/_blockwise.py::Blockwise.__dask_tokenize__", "id"): "documented fallback: values that cannot be tokenized deterministically (and non-serializable locks) are named by identity; cached in _determ_token",
     ("dask_array/_blockwise.py::Elemwise.__dask_tokenize__", "id"): "documented fallback, mirrors Blockwise; cached in _determ_token",
+    ("dask_array/io/_store.py::store", "id"): "a store node is an effect on a particular target object, so it is identified by WHICH object is written (id(target), the convention already used for lock objects); naming it by the target's current content made two equal-looking targets one node and dropped a write (C25 R25.6). Store graphs are executed, not rebuilt elsewhere by name",
     ("dask_array/io/_from_map.py::FromMap.__dask_tokenize__", "pickle"): "documented fast token for coalesced from_delayed call bundles: accepted only when two pickles agree byte-for-byte and the payload does not refer to __main__, else the stock tokenizer runs; shares the identity-structure sensitivity recorded as a known finding for Rechunk._name, but no witness was constructed for this site, so it is listed as reviewed",
 }
 
